@@ -94,10 +94,12 @@ def base_lib(language, r):
     decls.append({"decl": "struct Qpt { int x; double y; };", "options": {"PY_struct_arg": r.choice(["class", "list", "class"])}})
     decls.append({"decl": "struct Qsz { int w; int h; };"})
     decls.append({"decl": "int qsfun(Qpt *p +intent(in), Qsz s)"})
+    decls.append({"decl": "enum Qtone { QSOFT, QLOUD = 7 };"})
     if language != "c":
         decls.append({"decl": "void qfun5(const std::string & s)"})
         decls.append({"decl": "class Qcls", "declarations": [
-            {"decl": "Qcls()"}, {"decl": "~Qcls()"}, {"decl": "int qmeth0(int a)"}, {"decl": "void qmeth1(double x)"}]})
+            {"decl": "Qcls()"}, {"decl": "~Qcls()"}, {"decl": "int qmeth0(int a)"}, {"decl": "void qmeth1(double x)"},
+            {"decl": "enum Qshade { QLIGHT, QDARK = 5 };"}]})
         decls.append({"decl": "namespace qns", "declarations": [
             {"decl": "int qfun6(int a)"},
             {"decl": "namespace qmid", "declarations": [{"decl": "namespace qdeep", "declarations": [{"decl": "int qfun7(int a)"}]}]}]})
@@ -351,6 +353,9 @@ def run(ctx):
             if lname in ("cxx", "c"):
                 # NB: scratch directory tags must not contain the declaration names (setup.py records paths)
                 targets = [((0,), "qfun0"), ((1,), "qfun1"), ((2,), "qfun2")]
+                ienum = [k for k, d0 in enumerate(lib.decls) if d0["decl"].startswith("enum Qtone")][0]
+                targets.append(((ienum,), "qloud"))            # an enumeration (not wrapped for Lua at all)
+                only_kinds = {"qloud": ("c", "fortran", "python"), "qdark": ("c", "fortran", "python")}
                 tn = [0]
                 if lname == "cxx":
                     top = [d0["decl"] for d0 in lib.decls]
@@ -358,13 +363,14 @@ def run(ctx):
                     ins = [k for k, t in enumerate(top) if t.startswith("namespace qns")][0]
                     targets.append(((icls, 2), "qmeth0"))
                     targets.append(((ins, 1, 0, 0), "qfun7"))      # three namespaces deep
+                    targets.append(((icls, 4), "qdark"))           # an enumeration inside a class
                     targets.append(((icls,), "qcls"))              # the option written on the class itself
                     targets.append(((ins,), "qfun6"))              # the option written on the namespace
                 # names that a target's option also governs (declared inside it): never "siblings"
-                inside = {"qcls": ("qmeth0",), "qfun6": ("qfun7",)}
+                inside = {"qcls": ("qmeth0", "qdark"), "qfun6": ("qfun7",)}
                 optn = {"c": "wrap_c", "fortran": "wrap_fortran", "python": "wrap_python", "lua": "wrap_lua"}
-                for path, fname in targets if thorough else (targets[:2] + targets[-3:]):
-                    for kind in KINDS:
+                for path, fname in targets if thorough else (targets[:2] + targets[3:4] + targets[-4:]):
+                    for kind in only_kinds.get(fname, KINDS):
                         # library on, declaration off
                         ov = [(path, {optn[kind]: False})]
                         if kind == "c":
@@ -381,6 +387,8 @@ def run(ctx):
                             # the C types header declares the capsule struct of every class (arguments of other
                             # functions may need it); what is switched off is the class's wrapper functions
                             fname_k = "qmeth0"
+                        elif fname == "qdark" and kind == "fortran":
+                            fname_k = "qcls_qdark"          # Fortran prefixes the members of a class's enumeration
                         else:
                             fname_k = fname
                         txt = text_of(res, kind)
@@ -388,7 +396,8 @@ def run(ctx):
                             ctx.fail("c15:declaration-off-but-present:%s:%s" % (kind, fname),
                                      "%s has %s: false but appears in the %s output" % (fname, optn[kind], kind), {"yaml": res["yaml"]})
                         others = [t for _, t in targets if t != fname and not t.startswith("qmeth") and t != "qcls"
-                                  and t not in inside.get(fname, ())]
+                                  and t not in inside.get(fname, ()) and kind in only_kinds.get(t, KINDS)
+                                  and not (t == "qdark" and fname != "qcls")]
                         if others and not (kind == "c" and lname == "c") and not re.search(PRESENT[kind] % others[0], txt):
                             ctx.fail("c15:sibling-missing:%s:%s" % (kind, others[0]),
                                      "sibling %s disappeared from the %s output" % (others[0], kind), {"yaml": res["yaml"]})
